@@ -19,7 +19,7 @@ OVERLAYS = [
     {"src": "C19/kani_c19_aggsig.rs", "dest": "src/crypto/aggsig/kani_c19_aggsig.rs", "decl_in": "src/crypto/aggsig.rs", "decl": "pub(crate) mod kani_c19_aggsig;"},
 ]
 
-CAP_Q = {"quick": 400, "thorough": 1200}
+CAP_Q = {"quick": 720, "thorough": 1500}
 CAP_T = {"quick": 900, "thorough": 1500}
 
 
@@ -85,8 +85,11 @@ HARNESSES = [
        ["network::deserialize", "<IndividualSignature as SchemaRead>::read", "<IndividualSignature as SchemaWrite>::{size_of,write}", "blst::min_sig::Signature::{sig_validate,from_bytes,deserialize,validate,serialize} (real Rust wrappers)"],
        "signature bytes in {fixture A, fixture B, infinity, any other 96 bytes}; buffer = the exact 96 bytes, one byte short or one byte long; accepted <=> exact length and genuine non-infinity signature; re-encoding = input",
        4, BLS_STUBS),
-    _h("c19_bitvec_encdec_w2", AGG, ENC_T, "encode then decode/two-word bitmask, top word possibly empty", BITVEC_FNS,
-       "bitmask of 65..=128 bits over two arbitrary 64-bit words, written by write_bitvec and read back with the production limit", 2),
+    # more memory / time than its siblings: on the unchanged tree it needs 110 s and < 4 GB, but an encoder that inspects the
+    # bits (seeded C19-m3: BitVec::last_one) needs > 10 GB before the solver can show the violation
+    dict(_h("c19_bitvec_encdec_w2", AGG, ENC_T, "encode then decode/two-word bitmask, top word possibly empty", BITVEC_FNS,
+            "bitmask of 65..=128 bits over two arbitrary 64-bit words, written by write_bitvec and read back with the production limit", 2),
+         mem_gb=28, timeout={"quick": 1200, "thorough": 1500}),
     _h("c19_bytes_aggsig_b16", AGG, T, "arbitrary-bytes/AggregateSignature", AGGSIG_FNS,
        "96 signature bytes in {fixture A, fixture B, infinity, any other bytes (= not a point)} followed by exactly 16 arbitrary bytes; accepted <=> point encoding valid, bitmask well-formed and ending exactly at the end of the buffer; re-encoding = canonical form",
        5, BLS_STUBS),
